@@ -11,7 +11,7 @@ THEOREMS = ["C16_unit_spellings_agree", "C16_out_of_range_rejected",
             "C16_iso_spellings_agree", "C16_iso_string_agree", "C16_iso_and_integer_agree",
             "C16_parse_print_date", "C16_date_string_agree",
             "C16_sites_agree", "C16_sites_agree_nonneg", "C16_u64_fallback_wraps_negative",
-            "C16_prune_sound_outside_known", "C16_prune_sound_literal", "C16_prune_refuted",
+            "C16_prune_sound_outside_known", "C16_prune_sound_literal", "C16_prune_sound_after_fix", "C16_prune_refuted",
             "C16_decimal_string_is_integer", "C16_all_string_spellings_agree"]
 RULE = ("instants (whole second t in year 1..9999 or a digit-band edge, plus a sub-second part) x spellings "
         "(RFC 3339 with random offset/fraction/separator, date-only at midnight, integer s/ms/us/ns as string "
@@ -27,7 +27,8 @@ ASSUMPTIONS = [
 ]
 TRUSTED = [
     "Coq 8.16.1 kernel + coqc; vm_compute for closed witnesses; no native_compute",
-    "translator tools/gen_params.py (digit bands, divisors and the division operator of normalize_integer_epoch are read from src/shared/time.rs)",
+    "translator tools/gen_params.py (digit bands, divisors and the division operator of normalize_integer_epoch are read from src/shared/time.rs; "
+    "p11_timesites.py: bucket sizes, u32 truncation of bucket ids, the calendar guard of temporal_builder.rs and the literal handling of temporal_pruner.rs)",
     "extraction: ExtrOcamlBasic only; ocaml/driver.ml, conv.ml, p_time.ml, p_tsite.ml (parsing/printing)",
     "correspondence harness /verif/harness (vharn fn time_str/time_json, tsite_*) built against /repo with --cfg sneldb_verif; "
     "condition builders are observed through their Debug rendering (private fields)",
